@@ -455,6 +455,7 @@ func reportPlumbing(c *run.Ctx, s *kit.Summary, r *kit.Rng) {
 				lats = append(lats, hc.Lats...)
 			}
 		}
+		var all []vegeta.Result
 		for k, l := range lats {
 			if l < 0 {
 				l = 0
@@ -465,10 +466,44 @@ func reportPlumbing(c *run.Ctx, s *kit.Summary, r *kit.Rng) {
 			if e != "" {
 				code = 500
 			}
-			enc.Encode(&vegeta.Result{Attack: "a", Seq: uint64(k), Code: code, Timestamp: t0.Add(time.Duration(k) * time.Millisecond),
-				Latency: time.Duration(l), Error: e, Method: "GET", URL: "http://x/"})
+			res := vegeta.Result{Attack: "a", Seq: uint64(k), Code: code, Timestamp: t0.Add(time.Duration(k) * time.Millisecond),
+				Latency: time.Duration(l), Error: e, Method: "GET", URL: "http://x/"}
+			enc.Encode(&res)
+			all = append(all, res)
 		}
 		f.Close()
+		// every third job without -every hands the SAME results to the command split over two to four files of unequal
+		// lengths (`vegeta report results.*`): the rows must still be the partition of all results
+		files := kit.HexS(j.file)
+		if i%3 == 1 && j.every == 0 && len(all) >= 4 {
+			cuts := [][]int{{2, len(all)}, {len(all) - 1, len(all)}, {1, 2, len(all)}, {1, len(all) - 2, len(all)}, {2, 3, 4, len(all)}}[r.Pick(5)]
+			var parts []string
+			from := 0
+			for pi, to := range cuts {
+				if to > len(all) {
+					to = len(all)
+				}
+				pf := fmt.Sprintf("%s.p%d", j.file, pi)
+				fh, err := os.Create(pf)
+				if err != nil {
+					panic(err)
+				}
+				pe := vegeta.NewEncoder(fh)
+				for q := from; q < to; q++ {
+					pe.Encode(&all[q])
+				}
+				fh.Close()
+				from = to
+				parts = append(parts, kit.HexS(pf))
+			}
+			if r.Chance(0.5) { // either order of the arguments
+				for a, b := 0, len(parts)-1; a < b; a, b = a+1, b-1 {
+					parts[a], parts[b] = parts[b], parts[a]
+				}
+			}
+			files = strings.Join(parts, " ")
+			s.Count(fmt.Sprintf("report:split_over_files=%d", len(parts)))
+		}
 		j.jsonO, j.histO, j.newO, j.bothO = j.file+".json", j.file+".hist", j.file+".hist2", j.file+".hist3"
 		{ // a second, different list for the inline form
 			n2 := 1 + r.Pick(4)
@@ -485,12 +520,12 @@ func reportPlumbing(c *run.Ctx, s *kit.Summary, r *kit.Rng) {
 			j.spec2 = "[" + strings.Join(parts2, ",") + "]"
 		}
 		ops = append(ops,
-			fmt.Sprintf("report %s %d %s %s %s", kit.HexS("json"), j.every, kit.HexS(spec), kit.HexS(j.jsonO), kit.HexS(j.file)),
-			fmt.Sprintf("report %s %d - %s %s", kit.HexS("hist"+spec), j.every, kit.HexS(j.histO), kit.HexS(j.file)),
-			fmt.Sprintf("report %s %d %s %s %s", kit.HexS("hist"), j.every, kit.HexS(spec), kit.HexS(j.newO), kit.HexS(j.file)),
+			fmt.Sprintf("report %s %d %s %s %s", kit.HexS("json"), j.every, kit.HexS(spec), kit.HexS(j.jsonO), files),
+			fmt.Sprintf("report %s %d - %s %s", kit.HexS("hist"+spec), j.every, kit.HexS(j.histO), files),
+			fmt.Sprintf("report %s %d %s %s %s", kit.HexS("hist"), j.every, kit.HexS(spec), kit.HexS(j.newO), files),
 			// both ways of giving buckets at once, with DIFFERENT lists: whichever the command honours, the rows must
 			// be the partition for ONE of the two given lists
-			fmt.Sprintf("report %s %d %s %s %s", kit.HexS("hist"+j.spec2), j.every, kit.HexS(spec), kit.HexS(j.bothO), kit.HexS(j.file)))
+			fmt.Sprintf("report %s %d %s %s %s", kit.HexS("hist"+j.spec2), j.every, kit.HexS(spec), kit.HexS(j.bothO), files))
 		jobs = append(jobs, j)
 	}
 	outs, err := kit.RunVegeta(c.Vegeta, ops)
